@@ -72,6 +72,20 @@ impl<'a> SM<'a> {
             false
         }
     }
+    /// Iterator::last and Iterator::count on a copy of the series as it stands (the register is left alone): the
+    /// consuming adaptors of the standard library, which an implementation may override
+    pub fn last_count(&mut self) {
+        if let Some(s) = self.ts.clone() {
+            let s2 = s.clone();
+            let last = catch(move || s.last());
+            let count = catch(move || s2.count());
+            let cj = match count {
+                Ok(n) => n.to_string(),
+                Err(_) => "-1".to_string(),
+            };
+            self.rec.ev("series_last", format!("\"count\":{},\"res\":{}", cj, jitem(&last)), true);
+        }
+    }
     /// drain the series, logging every call, with two more calls after the end
     pub fn drain(&mut self, cap: usize) {
         let mut i = 0;
@@ -124,6 +138,15 @@ pub fn c15(rec: &mut Rec, lm: &Landmarks, rng: &mut Rng, thorough: bool) {
                             end_same
                         };
                         m.series_new(start, end, ns_dur(step * tick), incl);
+                        // (an end given in another scale can put a leap second, i.e. millions of items, into the span)
+                        let short = end.time_scale == start.time_scale;
+                        if short {
+                            m.last_count();
+                        }
+                        if short && combo % 3 == 0 {
+                            m.next();
+                            m.last_count(); // ... of what is left once an item has been taken
+                        }
                         m.drain(40);
                         // the same series consumed with nth(): landing on the last item, one past it, in two hops
                         // (only when the end is given in the start's scale: otherwise the span is measured in the end's
@@ -206,6 +229,9 @@ pub fn c15(rec: &mut Rec, lm: &Landmarks, rng: &mut Rng, thorough: bool) {
             end0
         };
         m.series_new(start, end, step, rng.chance(1, 2));
+        if end.time_scale == start.time_scale {
+            m.last_count();
+        }
         m.drain(80);
     }
     // long series: every item logged
